@@ -926,6 +926,9 @@ package websocket
 //@ pred isZeroTime(t) := t.wall == 0 && t.ext == 0 && t.loc == nil
 
 //@ func (*Upgrader).Upgrade
+//@ alias p := arg0@call:append#1
+//@ alias challengeKey := arg0@call:computeAcceptKey#1
+//@ bind c after call:newConn#1
 //@ tags C07 C12 C13 C15 C16 C17
 //@ results conn err
 //@ requires u.ReadBufferSize <= 1099511627776 && u.WriteBufferSize <= 1099511627776
@@ -1033,6 +1036,8 @@ package websocket
 //@ assert at call:ReadFull#1[C14.freshkey]: arg0 == rand.Reader && len(arg1) == 16
 
 //@ func (*Dialer).DialContext
+//@ alias req := arg0@call:Write#1
+//@ alias netConn := arg1@call:Write#1
 //@ tags C07 C14 C15 C16 C17 C18
 //@ results conn resp err
 //@ requires imp(d != nil, d.ReadBufferSize <= 1099511627776 && d.WriteBufferSize <= 1099511627776)
